@@ -56,10 +56,57 @@ func (g *FuncGen) callCommon(cc *ssa.CallCommon, res ssa.Value, in ssa.Instructi
 	if ct := g.prog.Contracts[name]; ct != nil {
 		return g.applyContract(ct, callee.Signature, args, callee.Signature.Recv() != nil, res, in, name)
 	}
+	var rv *Val
+	pre := g.cur.clone()
 	if h := g.knownNoEffect(name); h {
-		return g.pureUnknown(name, cc, res)
+		rv = g.pureUnknown(name, cc, res)
+	} else {
+		rv = g.havocCall(name, cc, args, res, in)
 	}
-	return g.havocCall(name, cc, args, res, in)
+	// ghost statements at a call without a contract are evaluated in the state just before the call
+	// (the call itself may havoc the heap); its results are still visible as res*
+	g.ghostState = pre
+	g.ghostAtUncontracted(name, args, rv)
+	g.ghostState = nil
+	return rv
+}
+
+// ghostAtUncontracted runs `ghost at call` statements for a callee that has no contract: the arguments are
+// visible as arg0, arg1, ... and the results as res / res0, res1, ...
+func (g *FuncGen) ghostAtUncontracted(name string, args []Val, rv *Val) {
+	if g.contract == nil || len(g.contract.Ghosts) == 0 {
+		return
+	}
+	matched := false
+	for _, ga := range g.contract.Ghosts {
+		if strings.HasSuffix(name, ga.Callee) {
+			matched = true
+		}
+	}
+	if !matched {
+		return
+	}
+	g.callOrd[name]++
+	vars := map[string]Val{}
+	for i, a := range args {
+		vars[fmt.Sprintf("arg%d", i)] = a
+	}
+	var results []Val
+	if rv != nil {
+		if rv.Tup != nil {
+			results = rv.Tup
+		} else {
+			results = []Val{*rv}
+		}
+	}
+	for i, r := range results {
+		vars[fmt.Sprintf("res%d", i)] = r
+		if len(results) == 1 {
+			vars["res"] = r
+		}
+	}
+	env := &Env{g: g, vars: vars, cur: g.cur, old: g.cur, pkg: g.pkg}
+	g.runGhostAt(name, g.callOrd[name], env, results)
 }
 
 // knownNoEffect: calls that do not touch modelled program state (logging, metrics, fmt to strings).
@@ -1041,7 +1088,11 @@ func (g *FuncGen) runGhostAt(callee string, ord int, env *Env, results []Val) {
 			continue
 		}
 		// ghost statements see the callee's parameters/results and, where not shadowed, the caller's parameters
-		genv := &Env{g: g, vars: map[string]Val{}, cur: g.cur, old: env.old, pkg: g.pkg}
+		gst := g.cur
+		if g.ghostState != nil {
+			gst = g.ghostState
+		}
+		genv := &Env{g: g, vars: map[string]Val{}, cur: gst, old: env.old, pkg: g.pkg}
 		for k, v := range g.params {
 			genv.vars[k] = v
 		}
@@ -1055,9 +1106,6 @@ func (g *FuncGen) runGhostAt(callee string, ord int, env *Env, results []Val) {
 			for i := range g.names[name] {
 				nb := &g.names[name][i]
 				vb := valueBlock(nb.val)
-				if nb.isAddr {
-					continue
-				}
 				if vb == nil || vb == cb || vb.Dominates(cb) {
 					if _, defined := g.vals[nb.val]; !defined && vb != nil {
 						continue
@@ -1070,6 +1118,14 @@ func (g *FuncGen) runGhostAt(callee string, ord int, env *Env, results []Val) {
 			if best == nil {
 				return Val{}, false
 			}
+			if best.isAddr {
+				// address-taken local (e.g. captured by a closure): its current value is read from its cell
+				pt, ok := best.val.Type().Underlying().(*types.Pointer)
+				if !ok {
+					return Val{}, false
+				}
+				return g.loadFrom(g.value(best.val), pt.Elem(), gst), true
+			}
 			return g.value(best.val), true
 		}
 		env := genv
@@ -1077,6 +1133,18 @@ func (g *FuncGen) runGhostAt(callee string, ord int, env *Env, results []Val) {
 			switch st.Kind {
 			case "set":
 				v := g.tr(env, st.E)
+				gv, declared := g.prog.Ghosts[st.Var]
+				if !declared {
+					g.unsup("ghost statement assigns undeclared ghost variable %s", st.Var)
+				}
+				gt, gs := g.specType(gv.Type, g.pkg)
+				if gt != nil {
+					gs = g.c.sortOf(gt)
+				}
+				v = g.coerceTo2(v, gs, gt)
+				if v.S != gs {
+					g.unsup("ghost %s has sort %s, assigned %s", st.Var, gs, v.S)
+				}
 				n := g.c.fresh("ghost_"+st.Var, v.S)
 				g.c.assert(eq(n, v.T))
 				g.cur.ghost[st.Var] = n
